@@ -70,7 +70,8 @@ type model struct {
 	entries []int // bulk sizes
 	events  int
 	backups []backup
-	nextID  uint32
+	nextID  uint32 // one more than the greatest id ever seen
+	taken   int    // backups taken so far
 }
 
 type world struct {
@@ -222,9 +223,41 @@ func (w *world) step(e event, quiet bool) bool {
 			}
 			return false
 		}
-		w.m.backups = append(w.m.backups, backup{w.m.nextID, w.m.events})
-		w.m.nextID++
+		// the id is the backup engine's to choose (it numbers from the greatest id it finds when it is
+		// opened, so an id can come back after every backup was deleted and the node restarted): the
+		// model learns it from the listing, where exactly one new id must have appeared
+		known := map[uint32]bool{}
+		for _, b := range w.m.backups {
+			known[b.ID] = true
+		}
+		var fresh []uint32
+		for _, bi := range w.node.ListBackups() {
+			if !known[uint32(bi.ID)] {
+				fresh = append(fresh, uint32(bi.ID))
+			}
+		}
+		if len(fresh) != 1 {
+			if !quiet {
+				w.viol("after creating a backup the listing does not show exactly one new backup", map[string]interface{}{"newIds": fmt.Sprint(fresh)})
+			}
+			return false
+		}
+		w.m.backups = append(w.m.backups, backup{fresh[0], w.m.events})
+		w.m.taken++
+		if fresh[0] >= w.m.nextID {
+			w.m.nextID = fresh[0] + 1
+		}
 	case "delete":
+		have := false
+		for _, b := range w.m.backups {
+			if b.ID == e.ID {
+				have = true
+			}
+		}
+		if !have {
+			w.r.Extra("delete_events_for_ids_the_engine_did_not_assign", 1)
+			return false // the enumeration guessed an id the engine did not assign: not a verdict
+		}
 		var err error
 		pn, msg := ev.Catch(func() { err = w.node.DeleteBackup(e.ID) })
 		if pn || err != nil {
@@ -267,7 +300,7 @@ func (w *world) enabled(b bounds) []event {
 	if w.m.events+2 <= b.maxEvents {
 		out = append(out, event{Kind: "add", K: 2})
 	}
-	if int(w.m.nextID)-1 < b.maxBackups {
+	if w.m.taken < b.maxBackups {
 		out = append(out, event{Kind: "backup"})
 	}
 	for _, bk := range w.m.backups {
@@ -713,6 +746,15 @@ func TestC16(t *testing.T) {
 				case "backup":
 					parent.m.backups = append(parent.m.backups, backup{parent.m.nextID, parent.m.events})
 					parent.m.nextID++
+					parent.m.taken++
+				case "restart":
+					// the backup engine numbers from the greatest id it finds when it is opened
+					parent.m.nextID = 1
+					for _, bk := range parent.m.backups {
+						if bk.ID >= parent.m.nextID {
+							parent.m.nextID = bk.ID + 1
+						}
+					}
 				case "delete":
 					var nb []backup
 					for _, bk := range parent.m.backups {
